@@ -29,7 +29,9 @@ CFG = dict(
         "Bridge.C06.respBody_not_in_request", "Bridge.C06.respBody_in_request",
         "Bridge.C06.pverdictFor_respond", "Bridge.C06.replyDrops_respond", "Bridge.C06.stepErrs_respond",
     ],
-    # n = random wire cases per run; the harness adds n/10+200 steered windows, n/2 fine-grained random cases and
+    # n = random wire cases per run; the harness adds n/10+200 steered windows, n/8+150 connection-failure scenarios (half of them with
+    # the real sarama client), n/8 random wire cases with the real sarama client, 20 (quick) / 300 (thorough) concurrent stress cases,
+    # n/2 fine-grained random cases and
     # the exhaustive fine-grained enumeration (length <= 4 quick: 22 620 cases; <= 5 once per thorough run: 271 452)
     n={"quick": 2000, "thorough": 100000, "search": 3000},
     thorough_seeds=2,
@@ -43,7 +45,10 @@ CFG = dict(
         "constructRequest / handleResponse / releasePOMs visit the partitions one by one under per-partition locks; the model makes each visit "
         "of all partitions one step (application calls on other partitions commute with the visit of a partition)",
         "metadata strings are opaque values that are only copied and compared (integer codes in model and line protocol)",
-        "coordinator lookup (client.RefreshCoordinator / Coordinator) and the coordinator's answers are parameters of the operations; "
+        "coordinator lookup (client.RefreshCoordinator / Coordinator) and the coordinator's answers are parameters of the operations; after a "
+        "connection failure the coordinator stays on the same id and address and the next lookup hands back the SAME Broker object after Open() "
+        "(what sarama's client does; the scripted client of the harness does the same, and part of the cases run with the real sarama.NewClient), "
+        "so the model's 'the next flush reaches the coordinator again' depends on flushToBroker closing the failed connection; "
         "fetchInitialOffset's own retry loop is not part of this property (the fetch succeeds in model and harness)",
         "the auto-commit ticker is replaced by explicit Commit() calls (ticker timing is a stated gap); marks concurrent with Close() are outside "
         "the property (\"latest mark made before Close\")",
@@ -72,6 +77,8 @@ CFG["manifest"] = dict(
          "ticker timing, several concurrent committers, fetchInitialOffset failures, real goroutine interleavings inside one visit loop "
          "(argued by commutation, exercised only at the granularity of whole visits).",
     technique="Lean 4 proof (invariants + induction over operation lists, projection of a system model onto partition runs) + regenerated "
-              "bridge obligations + differential correspondence (wire-level scripted coordinator with marks steered into the commit window, "
+              "bridge obligations + differential correspondence (wire-level scripted coordinator over real TCP connections with marks steered into the commit window, "
+              "connection failures on the k-th OffsetCommit - dropped before/after applying, or swallowed until Net.ReadTimeout - with the coordinator "
+              "staying on the same id+address, scripted and real sarama client, "
               "and fine-grained step stream incl. exhaustive enumeration)",
 )
